@@ -1,17 +1,17 @@
 from vlib.core import *
 
 META = dict(
-    level_text="Proved in Lean for all n, every input, every scalar type with every Sc instance (comparisons are arbitrary functions, so every pivot-decision sequence is covered): every access of the model of BKLDLT::compute and solve_inplace to the packed array, m_perm and the right-hand side is in range, the running dest pointer of copy_data addresses coeff(i,j), offsets j*n-j(j-1)/2+(i-j) lie in [0,n(n+1)/2) and are injective (c10_index_safe, c10_index_safe_compute, c10_offset_in_range, c10_offset_injective); m_perm after compute is a tiling by 1x1/2x2 blocks with entries decoding into [0,n) (c10_perm_blocks, c10_permc_in_range) and the last permutation pass of solve_inplace undoes the first (c10_perm_inverse); the translated solve_inplace_2x2 / inverse_inplace_2x2 and the model's solve_left_2x2 solve E x = b / x E = c resp. give E^-1 over any field in both pivoting branches (c10_solve2, c10_solve2_ordered, c10_solve_left2, c10_inv2); status: translated singularity tests give NumericalIssue exactly on a zero 1x1 pivot / zero 2x2 determinant, compute's status statements make info() Successful or NumericalIssue for every n incl. 1, the loop stops at the first failure, both wrappers throw invalid_argument iff info != Successful (c10_status_ge1/ge2/compute/n1/loop/total, c10_wrapper_throws); the packed copy (whole state) from Upper equals the one from Lower for symmetric input in both storage orders, hence compute agrees (c10_uplo_equal, c10_uplo_equal_compute); entry-by-entry semantics of the model's 1x1 and 2x2 elimination steps, of pivoting_1x1 / pivoting_2x2 (symmetric interchange of the trailing block) and interchange_rows by read-over-write reasoning on the packed array (c10_elim1_model, c10_elim2_model, c10_pivot_sym, c10_pivot2_sym, c10_interchange_rows) plus the Schur-complement field identities (c10_elim1, c10_elim2). NOT proved: the floating-point residual bound c*n*eps(...) (needs the Bunch-Kaufman growth analysis; checked with c = 100 in long double), the global identity P(A-sI)P^T = LDL^T and solve = (A-sI)^-1 b by induction over the loop (only the per-step statements above); complex Hermitian scalars are covered at implementation level only.",
-    note="Lean kernel + propext/Classical.choice/Quot.sound; translator xlate + clang-14 AST for Gen.BK; hand model Model/BKLDLT.lean tied to the code by bit-exact correspondence on sampled inputs only; Eigen element-wise expression semantics and sequential dot under EIGEN_DONT_VECTORIZE",
+    level_text="Proved in Lean for all n, every input, every scalar type with every Sc instance (comparisons are arbitrary functions, so every pivot-decision sequence is covered): every access of the model of BKLDLT::compute and solve_inplace to the packed array, m_perm and the right-hand side is in range, the running dest pointer of copy_data addresses coeff(i,j), offsets j*n-j(j-1)/2+(i-j) lie in [0,n(n+1)/2) and are injective (c10_index_safe, c10_index_safe_compute, c10_offset_in_range, c10_offset_injective); m_perm after compute is a tiling by 1x1/2x2 blocks with entries decoding into [0,n) (c10_perm_blocks, c10_permc_in_range) and the last permutation pass of solve_inplace undoes the first (c10_perm_inverse); the translated solve_inplace_2x2 / inverse_inplace_2x2 and the model's solve_left_2x2 solve E x = b / x E = c resp. give E^-1 over any field in both pivoting branches (c10_solve2, c10_solve2_ordered, c10_solve_left2, c10_inv2); status: translated singularity tests give NumericalIssue exactly on a zero 1x1 pivot / zero 2x2 determinant, compute's status statements make info() Successful or NumericalIssue for every n incl. 1, the loop stops at the first failure, both wrappers throw invalid_argument iff info != Successful (c10_status_ge1/ge2/compute/n1/loop/total, c10_wrapper_throws); the packed copy (whole state) from Upper equals the one from Lower for symmetric input in both storage orders, hence compute agrees (c10_uplo_equal, c10_uplo_equal_compute); entry-by-entry semantics of the model's 1x1 and 2x2 elimination steps, of pivoting_1x1 / pivoting_2x2 (symmetric interchange of the trailing block) and interchange_rows by read-over-write reasoning on the packed array (c10_elim1_model, c10_elim2_model, c10_pivot_sym, c10_pivot2_sym, c10_interchange_rows) plus the Schur-complement field identities (c10_elim1, c10_elim2). TIER 3 (real model, exact arithmetic over any linearly ordered field, every n, every input, every pivot-decision sequence incl. 2x2 pivots and all interchanges, by induction over the pivot loop): if compute reports Successful then P(A-sI)P^T = L D L^T entrywise and as a Mathlib matrix equation over Fin n, with L unit lower triangular (block-unit for 2x2 pivots), D block diagonal with the stored 1x1 / symmetric 2x2 blocks, all D blocks nonsingular, P the bijection given by the compressed permutation, A-sI tied to the input triangle selected by uplo (c10_factor_partial, c10_factor_matrix_partial, c10_LD_structure, c10_shiftedSym); and the five phases of solve_inplace compose to a solution of (A-sI)x = b (c10_solve_correct_partial). COMPLEX HERMITIAN instantiation: executable model Model/BKLDLTC.lean (std::complex as pairs over the real scalar class, g++ complex multiplication formula, libgcc __divdc3 division, hypot abs; copy_data in all four Uplo x storage-order branches with the conj of the Upper path, conjugating interchanges, both eliminations, solve with the conjugating dot), bit-exact against BKLDLT<std::complex<double>>; for it: index safety of compute and solve_inplace, m_perm block structure, status totality for every real scalar type and Sc instance (c10_index_safe_compute_complex, c10_index_safe_complex, c10_perm_blocks_complex, c10_status_loop_complex, c10_status_total_complex), Lower == Upper of the packed copy for Hermitian input in both storage orders with the TRANSLATED ScalarOp<complex>::conj (c10_uplo_equal_complex, c10_uplo_equal_compute_complex, c10_scalarop_complex), and the TRANSLATED branch condition of copy_data takes the unconjugated std::copy path for column-major + Lower only (c10_copy_fast_path). NOT proved: the floating-point residual bound c*n*eps(...) (needs the Bunch-Kaufman growth analysis; checked with c = 100 in long double); tier 3 and the per-step Schur identities for the complex model; uniqueness of the solution is not stated separately (it follows from L unit triangular and D nonsingular).",
+    note="Lean kernel + propext/Classical.choice/Quot.sound; translator xlate + clang-14 AST for Gen.BK; hand models Model/BKLDLT.lean (real) and Model/BKLDLTC.lean (complex Hermitian) tied to the code by bit-exact correspondence on sampled inputs only; g++ 12 -O1 evaluation of std::complex * and / (naive product formula resp. libgcc __divdc3, re-implemented as HessEigen.cdiv; the NaN-recovery paths of __muldc3/__divdc3 are not modelled); Eigen element-wise expression semantics and sequential dot under EIGEN_DONT_VECTORIZE",
     technique="Lean 4 proof (invariants over folds / fuel recursion, field identities) on source-translated kernels + hand model; bit-exact differential correspondence; long double oracle on double/float/complex<double>",
     design="§5 C10", harnesses=['c10'])
 
 def run(tier, seed, replay=None):
     R = Run('C10', tier, seed)
     R.trusted = TRUSTED_COMMON + [
-        'hand model Model/BKLDLT.lean (storage, copy_data, pivot search and selection, eliminations, solve loops) corresponds to BKLDLT.h only as far as the sampled bit-exact comparison shows',
+        'hand models Model/BKLDLT.lean (real) and Model/BKLDLTC.lean (complex Hermitian): storage, copy_data, pivot search and selection, eliminations, solve loops correspond to BKLDLT.h only as far as the sampled bit-exact comparison shows',
         'Eigen 3.4.0: `dst -= s*v`, `v /= s`, `(a - s*b).array()/d` are evaluated element-wise with true division; `dot` is a left-to-right sum under EIGEN_DONT_VECTORIZE',
-        'real scalars only in the model (ScalarOp primary template); complex Hermitian input is checked on the implementation only']
+        'std::complex<double> arithmetic as compiled by g++ 12 at -O1 -ffp-contract=off: a*b = (ar*br - ai*bi, ar*bi + ai*br), a/b = libgcc __divdc3 (finite path), abs = hypot; tier-3 theorems are exact-arithmetic statements about the real model']
     R.assumptions = ['input entries finite; the residual clause is checked, not proved (rounding is not modelled)']
     if replay:
         exe, log = build_harness('c10')
@@ -36,6 +36,6 @@ def run(tier, seed, replay=None):
         R.cov['rule'] = ('cases idx = 0..N-1 (N = 1500 quick / 12000 thorough), kind = idx mod 10 in {SPD, indefinite, zero diagonal, block diagonal (+[0 a;a 0] blocks, permuted), graded over 16 decades, '
                          'small integers, exactly singular pivot blocks (exact arithmetic), shift equal/adjacent to a diagonal entry, tridiagonal with tiny diagonal (2x2 pivots), fixed corpus}; '
                          'n in 1..20 (quick) / 1..80 (thorough), small-biased; every case runs Lower/Upper x ColMajor/RowMajor x (unused triangle NaN) on double, float, complex<double>; '
-                         'one configuration per case is sent to the model (bit-exact compare of info, m_perm, packed data, solution); branch tags = pivot outcomes read from m_perm')
+                         'one configuration per case is sent to the models at double, float and complex<double> (Hermitian data with skew imaginary part; bit-exact compare of info, m_perm, packed data, solution); branch tags = pivot outcomes read from m_perm')
         R.cov['exhaustive'] = False
     return R.finish()
